@@ -64,6 +64,8 @@ type impl struct {
 	objTag string
 	mux    *plugin.MuxBroker
 	grpcb  *plugin.GRPCBroker
+	kmu    sync.Mutex
+	kept   map[uint32]*grpc.ClientConn
 }
 
 func (im *impl) do(op, arg string) (string, error) {
@@ -158,16 +160,53 @@ func (im *impl) do(op, arg string) (string, error) {
 			s.Serve(ln)
 		}()
 		return "", nil
-	case "dial":
+	case "dialkeep":
+		// dial, ping once, keep the connection for later "reping"
 		id64, _ := strconv.ParseUint(arg, 10, 32)
 		id := uint32(id64)
+		if im.grpcb == nil {
+			return "", errors.New("dialkeep: gRPC only")
+		}
+		conn, err := im.grpcb.Dial(id)
+		if err != nil {
+			return "", err
+		}
+		msg, err := PingConn(conn, 20*time.Second)
+		if err != nil {
+			conn.Close()
+			return "", err
+		}
+		im.kmu.Lock()
+		if im.kept == nil {
+			im.kept = map[uint32]*grpc.ClientConn{}
+		}
+		im.kept[id] = conn
+		im.kmu.Unlock()
+		return msg, nil
+	case "reping":
+		id64, _ := strconv.ParseUint(arg, 10, 32)
+		im.kmu.Lock()
+		conn := im.kept[uint32(id64)]
+		im.kmu.Unlock()
+		if conn == nil {
+			return "", errors.New("reping: no kept connection")
+		}
+		return PingConn(conn, 20*time.Second)
+	case "dial":
+		ids, sizes, _ := strings.Cut(arg, ":")
+		id64, _ := strconv.ParseUint(ids, 10, 32)
+		id := uint32(id64)
+		size := 64
+		if sizes != "" {
+			size, _ = strconv.Atoi(sizes)
+		}
 		if im.mux != nil {
 			conn, err := im.mux.Dial(id)
 			if err != nil {
 				return "", err
 			}
 			defer conn.Close()
-			return EchoOnce(conn, id, 64)
+			return EchoOnce(conn, id, size)
 		}
 		conn, err := im.grpcb.Dial(id)
 		if err != nil {
@@ -452,8 +491,11 @@ func NewPingPongServer(opts []grpc.ServerOption, id uint32, sh *Shared) *grpc.Se
 	return s
 }
 
+// GRPCConn is what PingConn needs.
+type GRPCConn = grpc.ClientConnInterface
+
 // PingConn makes one PingPong call on a brokered gRPC connection.
-func PingConn(conn *grpc.ClientConn, timeout time.Duration) (string, error) {
+func PingConn(conn grpc.ClientConnInterface, timeout time.Duration) (string, error) {
 	ctx, cancel := context.WithTimeout(context.Background(), timeout)
 	defer cancel()
 	resp, err := grpctest.NewPingPongClient(conn).Ping(ctx, &grpctest.PingRequest{})
